@@ -79,12 +79,17 @@ struct Config {
     /// reference store only: the store keeps one credential per (RP ID, user entity) as
     /// authenticatorMakeCredential prescribes, and the registrations create discoverable credentials
     accounts: bool,
+    /// 0: as usual; 1: the seeded credentials' counters are 2^31-3 and 3*2^30 (the upper half of the range);
+    /// 2 / 3: every authenticator's id length comes from `CredentialIdLength::randomized` with a random
+    /// source that draws its smallest / largest value
+    variant: u8,
 }
 
 impl Config {
     fn json(&self) -> Value {
         json!({"configuration": self.name, "ceremonies": self.cers.iter().map(|c| format!("{c:?}")).collect::<Vec<_>>(), "store": format!("{:?}", self.store),
-            "lock": format!("{:?}", self.lock), "uv_yields": self.uv_yields, "store_yields": self.store_yields, "newest_first": self.newest_first, "update_fault": self.update_fault, "find_fault": self.find_fault, "stored_rp_id_spelled_differently": self.alias_rp, "store_keeps_one_credential_per_account": self.accounts})
+            "lock": format!("{:?}", self.lock), "uv_yields": self.uv_yields, "store_yields": self.store_yields, "newest_first": self.newest_first, "update_fault": self.update_fault, "find_fault": self.find_fault, "stored_rp_id_spelled_differently": self.alias_rp, "store_keeps_one_credential_per_account": self.accounts,
+            "variant": (["-", "seeded counters in the upper half of the 32-bit range", "id lengths from CredentialIdLength::randomized, smallest draw", "id lengths from CredentialIdLength::randomized, largest draw"][usize::from(self.variant)])})
     }
 }
 
@@ -120,6 +125,10 @@ fn seed_creds() -> Vec<Passkey> {
 fn run_config(cfg: &Config, choose: &mut dyn FnMut(usize, usize) -> usize) -> RunOut {
     let log = Log::new();
     let mut creds = seed_creds();
+    if cfg.variant == 1 {
+        creds[0].counter = Some(0x7FFF_FFFD);
+        creds[1].counter = Some(0xC000_0000);
+    }
     if cfg.alias_rp {
         for c in creds.iter_mut() {
             c.rp_id = "EXAMPLE.com.".into();
@@ -134,7 +143,13 @@ fn run_config(cfg: &Config, choose: &mut dyn FnMut(usize, usize) -> usize) -> Ru
                 let uv = RecUv::new(log.clone(), UvOutcome::Check { presence: !silent, verification: !silent }, Some(true)).with_actor(i);
                 uv.set_yields(cfg.uv_yields);
                 let hmac = if matches!(cfg.cers[i], Cer::AssertRefused(_)) { crate::util::HmacCfg::WithoutUv } else { crate::util::HmacCfg::None };
-                auths.push(mk_auth(shared.clone(), uv, AuthCfg { counters: true, hmac, ..Default::default() }));
+                let mut a = mk_auth(shared.clone(), uv, AuthCfg { counters: true, hmac, ..Default::default() });
+                if cfg.variant >= 2 {
+                    // the constructor the type's documentation recommends, over a source an application might have
+                    let mut source = rand::rngs::mock::StepRng::new(if cfg.variant == 2 { 0 } else { u64::MAX }, 0);
+                    a.set_make_credential_id_length(passkey_authenticator::CredentialIdLength::randomized(&mut source));
+                }
+                auths.push(a);
             }
             // sequential warm-up assertions on every seeded credential, completed before the concurrent phase
             let mut warm: Vec<(Vec<u8>, u32)> = Vec::new();
@@ -383,25 +398,33 @@ fn configs(thorough: bool) -> Vec<Config> {
                 for uv_yields in [1usize, 2] {
                     let sy: Vec<usize> = if store == StoreKind::Rec { if thorough { vec![0, 1] } else { vec![1] } } else { vec![0] };
                     for store_yields in sy {
-                        v.push(Config { name, cers: cers.clone(), store, lock, uv_yields, store_yields, newest_first: false, update_fault: None, find_fault: None, alias_rp: false, accounts: false });
+                        v.push(Config { name, cers: cers.clone(), store, lock, uv_yields, store_yields, newest_first: false, update_fault: None, find_fault: None, alias_rp: false, accounts: false, variant: 0 });
                         if store == StoreKind::Memory && uv_yields == 1 && cers.iter().any(|c| matches!(c, Cer::Assert(_) | Cer::AssertBoth(_))) {
-                            v.push(Config { name, cers: cers.clone(), store, lock, uv_yields, store_yields, newest_first: false, update_fault: None, find_fault: None, alias_rp: true, accounts: false });
+                            v.push(Config { name, cers: cers.clone(), store, lock, uv_yields, store_yields, newest_first: false, update_fault: None, find_fault: None, alias_rp: true, accounts: false, variant: 0 });
                         }
                         if store == StoreKind::Rec && uv_yields == 1 && cers.contains(&Cer::Register) {
                             // a store that files one credential per account; the registrations are for different users
-                            v.push(Config { name, cers: cers.clone(), store, lock, uv_yields, store_yields, newest_first: false, update_fault: None, find_fault: None, alias_rp: false, accounts: true });
+                            v.push(Config { name, cers: cers.clone(), store, lock, uv_yields, store_yields, newest_first: false, update_fault: None, find_fault: None, alias_rp: false, accounts: true, variant: 0 });
+                        }
+                        if uv_yields == 1 && cers.iter().any(|c| matches!(c, Cer::Assert(_))) {
+                            v.push(Config { name, cers: cers.clone(), store, lock, uv_yields, store_yields, newest_first: false, update_fault: None, find_fault: None, alias_rp: false, accounts: false, variant: 1 });
+                        }
+                        if uv_yields == 1 && store == StoreKind::Memory && cers.iter().filter(|c| matches!(c, Cer::Register)).count() == 2 {
+                            for variant in [2u8, 3] {
+                                v.push(Config { name, cers: cers.clone(), store, lock, uv_yields, store_yields, newest_first: false, update_fault: None, find_fault: None, alias_rp: false, accounts: false, variant });
+                            }
                         }
                         if store == StoreKind::Rec && uv_yields == 1 {
                             // a conforming store that lists newest first and answers id-less lookups
                             if cers.contains(&Cer::AssertAny) {
-                                v.push(Config { name, cers: cers.clone(), store, lock, uv_yields, store_yields, newest_first: true, update_fault: None, find_fault: None, alias_rp: false, accounts: false });
+                                v.push(Config { name, cers: cers.clone(), store, lock, uv_yields, store_yields, newest_first: true, update_fault: None, find_fault: None, alias_rp: false, accounts: false, variant: 0 });
                             }
                             // a store that refuses one counter update
                             if cers.iter().any(|c| matches!(c, Cer::Assert(_) | Cer::AssertSilent(_))) {
-                                v.push(Config { name, cers: cers.clone(), store, lock, uv_yields, store_yields, newest_first: false, update_fault: Some(1), find_fault: None, alias_rp: false, accounts: false });
+                                v.push(Config { name, cers: cers.clone(), store, lock, uv_yields, store_yields, newest_first: false, update_fault: Some(1), find_fault: None, alias_rp: false, accounts: false, variant: 0 });
                                 // a store whose k-th lookup fails once (k counted over the whole run, warm-up included)
                                 for k in [2usize, 3] {
-                                    v.push(Config { name, cers: cers.clone(), store, lock, uv_yields, store_yields, newest_first: false, update_fault: None, find_fault: Some(k), alias_rp: false, accounts: false });
+                                    v.push(Config { name, cers: cers.clone(), store, lock, uv_yields, store_yields, newest_first: false, update_fault: None, find_fault: Some(k), alias_rp: false, accounts: false, variant: 0 });
                                 }
                             }
                         }
@@ -492,7 +515,7 @@ fn scheduler_engine(rep: &mut Report, args: &Args, only: Option<u64>) {
             1 => vec![Cer::Assert(0), Cer::Assert(0), Cer::Assert(0)],
             _ => vec![Cer::Assert(0), Cer::Register, Cer::Assert(1)],
         };
-        let cfg = Config { name: "three mixed", cers, store: *rng.pick(&[StoreKind::Memory, StoreKind::Rec]), lock: *rng.pick(&[LockKind::Mutex, LockKind::RwLock]), uv_yields: rng.range(1, 2), store_yields: rng.below(2), newest_first: rng.chance(1, 4), update_fault: if rng.chance(1, 4) { Some(rng.below(3)) } else { None }, find_fault: if rng.chance(1, 5) { Some(rng.range(2, 5)) } else { None }, alias_rp: false, accounts: false };
+        let cfg = Config { name: "three mixed", cers, store: *rng.pick(&[StoreKind::Memory, StoreKind::Rec]), lock: *rng.pick(&[LockKind::Mutex, LockKind::RwLock]), uv_yields: rng.range(1, 2), store_yields: rng.below(2), newest_first: rng.chance(1, 4), update_fault: if rng.chance(1, 4) { Some(rng.below(3)) } else { None }, find_fault: if rng.chance(1, 5) { Some(rng.range(2, 5)) } else { None }, alias_rp: false, accounts: false, variant: 0 };
         let r = catch(|| {
             let mut r2 = rng.clone();
             let mut choose = |_s: usize, n: usize| r2.below(n);
